@@ -8,7 +8,7 @@ META = {
     'functions_encoded': ['TasmanianSparseGrid::{evaluate, evaluateBatch, getInterpolationWeights, evaluateHierarchicalFunctions, evaluateSparseHierarchicalFunctions, getHierarchicalSupport, integrate, getQuadratureWeights, integrateHierarchicalFunctions, differentiate, getDifferentiationWeights, setHierarchicalCoefficients, getHierarchicalCoefficients, getLoadedValues, mergeRefinement, beginConstruction, loadConstructedPoints}',
                           'per family: GridGlobal, GridSequence, GridLocalPolynomial, GridWavelet, GridFourier back-ends of those calls'],
     'assumptions': ['reals instead of doubles on symbolic data; tolerance 1e-9 x (number of symbols + sum |weights|)', 'Wavelet: model values concrete (GMRES), coefficient overwrite symbolic; wavelet interpolation/differentiation weights at a symbolic x outside the claim',
-                    'support clause checked at concrete probe points here (node +- radius, just outside); the for-all-points 1-D version is engine K'],
+                    'Fourier with a symbolic evaluation point outside the claim (cos/sin of symbolic data are uninterpreted; the weight identities then need trigonometric reasoning z3 does not finish)', 'support clause checked at concrete probe points here (node +- radius, just outside); the for-all-points 1-D version is engine K'],
 }
 
 
@@ -41,7 +41,7 @@ def configs(tier):
             for h in range(5): add(spec('sequence', rule, 2, 1, 2), h, 0)
             add(spec('sequence', rule, 2, 1, 3), 0, 1); add(spec('sequence', rule, 3, 2, 2, transform=1), 4, 0)
         for h in range(5): add(spec('fourier', 'fourier', 2, 1, 1), h, 0, timeout=300)
-        add(spec('fourier', 'fourier', 1, 2, 2, transform=1), 0, 0); add(spec('fourier', 'fourier', 1, 1, 2), 0, 1, max_paths=4, solver_timeout_ms=60000)
+        add(spec('fourier', 'fourier', 1, 2, 2, transform=1), 0, 0)
         for order in (1, 3):
             for h in (0, 1, 4): add(spec('wavelet', 'wavelet', 2, 1, 1, order=order), h, 0)
             add(spec('wavelet', 'wavelet', 1, 1, 2, order=order), 4, 1, max_paths=30)
